@@ -61,11 +61,26 @@ class packet_base (object):
         def __str__(self):
             # optionally convert to human readable string
     """
+    # Headers nested deeper than this are left unparsed (tunnels and ICMP
+    # errors can nest headers as deep as the frame is long, which is more
+    # than the interpreter's stack)
+    MAX_NESTING = 32
+
     def __init__ (self):
         self.next = None
         self.prev = None
         self.parsed = False
         self.raw = None
+
+    def _too_deep (self):
+        """ True if this header is nested in MAX_NESTING others """
+        n = 0
+        p = self.prev
+        while isinstance(p, packet_base):
+            n += 1
+            if n >= packet_base.MAX_NESTING: return True
+            p = p.prev
+        return False
 
     def _init (self, kw):
         if 'payload' in kw:
